@@ -2,11 +2,15 @@ package verifsim
 
 import (
 	"crypto"
+	"crypto/ecdsa"
+	"crypto/ed25519"
 	"crypto/tls"
 	"crypto/x509"
+	"encoding/asn1"
 	"errors"
 	"fmt"
 	"io"
+	"math/big"
 	"math/rand/v2"
 	"time"
 
@@ -27,8 +31,8 @@ type C03Params struct {
 	Rules    NetRules `json:"rules"`
 }
 
-var c03DevsServer = []string{"none", "wrong-ca", "wrong-name", "expired", "not-yet-valid", "other-key", "sig-flip", "sig-other-digest"}
-var c03DevsClient = []string{"none", "no-cert", "wrong-ca", "expired", "other-key", "sig-flip", "sig-other-digest"}
+var c03DevsServer = []string{"none", "wrong-ca", "wrong-name", "expired", "not-yet-valid", "other-key", "sig-flip", "sig-other-digest", "victim-leaf-behind-own-cert", "scheme-confusion"}
+var c03DevsClient = []string{"none", "no-cert", "wrong-ca", "expired", "other-key", "sig-flip", "sig-other-digest", "victim-leaf-behind-own-cert", "scheme-confusion"}
 var c03DevsPSK = []string{"none", "wrong-psk", "wrong-identity"}
 
 type c03Case struct {
@@ -48,16 +52,27 @@ func c03Cases() []c03Case {
 			}
 			for _, verify := range []bool{true, false} {
 				for _, dev := range c03DevsServer {
+					if dev == "scheme-confusion" && key != "ecdsa" {
+						continue
+					}
 					out = append(out, c03Case{ver, "c", "cert", key, verify, false, 0, dev})
 				}
 				out = append(out, c03Case{ver, "c", "cert", key, verify, true, 0, "none"})
 			}
 			for policy := 0; policy <= 4; policy++ {
 				for _, dev := range c03DevsClient {
+					if dev == "scheme-confusion" && key != "ecdsa" {
+						continue
+					}
 					out = append(out, c03Case{ver, "s", "cert", key, false, false, policy, dev})
 				}
 			}
 			out = append(out, c03Case{ver, "s", "cert", key, false, true, 4, "none"})
+			if ver == 13 {
+				for _, policy := range []int{0, 2, 4} {
+					out = append(out, c03Case{ver, "s", "cert", key, false, false, policy, "ack-instead-of-auth"})
+				}
+			}
 		}
 	}
 	for _, auth := range []string{"psk", "ecdhepsk"} {
@@ -96,6 +111,23 @@ type rogueSigner struct {
 	pub   crypto.PublicKey
 	inner crypto.Signer
 	mode  string
+	// forged is what "scheme-confusion" answers every signing request with
+	forged []byte
+}
+
+// forgeECDSAZero builds, from a public key alone, an ECDSA signature that verifies for the
+// hash value zero: R = v*Q, r = R.x mod n, s = r / v. A verifier that hashes the signed
+// content with a real hash function never accepts it.
+func forgeECDSAZero(pub *ecdsa.PublicKey) []byte {
+	n := pub.Curve.Params().N
+	v := big.NewInt(0x1d7154)
+	x, _ := pub.Curve.ScalarMult(pub.X, pub.Y, v.Bytes()) //nolint:staticcheck
+	r := new(big.Int).Mod(x, n)
+	sv := new(big.Int).Mul(r, new(big.Int).ModInverse(v, n))
+	sv.Mod(sv, n)
+	out, _ := asn1.Marshal(struct{ R, S *big.Int }{r, sv})
+
+	return out
 }
 
 func (r *rogueSigner) Public() crypto.PublicKey { return r.pub }
@@ -108,6 +140,8 @@ func (r *rogueSigner) Sign(rd io.Reader, digest []byte, opts crypto.SignerOpts) 
 		}
 
 		return r.inner.Sign(rd, d, opts)
+	case "scheme-confusion":
+		return r.forged, nil
 	case "sig-flip":
 		sig, err := r.inner.Sign(rd, digest, opts)
 		if err == nil && len(sig) > 8 {
@@ -131,7 +165,20 @@ func c03MustFail(p *C03Params) bool {
 	case "wrong-psk", "wrong-identity":
 		return true
 	}
-	sigLevel := p.Dev == "other-key" || p.Dev == "sig-flip" || p.Dev == "sig-other-digest"
+	sigLevel := p.Dev == "other-key" || p.Dev == "sig-flip" || p.Dev == "sig-other-digest" || p.Dev == "scheme-confusion"
+	if p.Dev == "ack-instead-of-auth" {
+		// the client never sends Certificate / CertificateVerify / Finished: no server may call that a handshake
+		return true
+	}
+	if p.Dev == "victim-leaf-behind-own-cert" {
+		// the presented leaf (first certificate) is the rogue's own: it proves possession of that key,
+		// so only chain validation can reject it
+		if p.Honest == "c" {
+			return p.Verify
+		}
+
+		return dtls.ClientAuthType(p.Policy) >= dtls.VerifyClientCertIfGiven
+	}
 	if p.Honest == "c" {
 		if p.Dev == "empty-chain" || sigLevel {
 			return true
@@ -151,6 +198,16 @@ func c03MustFail(p *C03Params) bool {
 	}
 
 	return false
+}
+
+type zeroReader struct{}
+
+func (zeroReader) Read(b []byte) (int, error) {
+	for i := range b {
+		b[i] = 0
+	}
+
+	return len(b), nil
 }
 
 func leafName(role, kind string) string {
@@ -195,7 +252,7 @@ func c03Run(rc *RunCtx, params any) {
 		if p.Policy >= int(dtls.VerifyClientCertIfGiven) {
 			sspec.UseRoots, sspec.VerifyPeer = 1, true
 		}
-		if p.Auth == "cert" && p.Dev != "no-cert" {
+		if p.Auth == "cert" && p.Dev != "no-cert" && p.Dev != "ack-instead-of-auth" {
 			cspec.Cert = leafName("cli", p.KeyKind)
 		}
 	}
@@ -213,6 +270,9 @@ func c03Run(rc *RunCtx, params any) {
 		spec, role = &cspec, "cli"
 	}
 	switch p.Dev {
+	case "ack-instead-of-auth":
+		// credentials stay genuine; the deviation is in what gets sent (see below)
+		cspec.Cert = leafName("cli", p.KeyKind)
 	case "wrong-ca":
 		spec.Cert = role + "-rogue"
 	case "wrong-name":
@@ -221,6 +281,26 @@ func c03Run(rc *RunCtx, params any) {
 		spec.Cert = role + "-expired"
 	case "not-yet-valid":
 		spec.Cert = "srv-future"
+	case "victim-leaf-behind-own-cert":
+		// the rogue presents its own self-signed, CA-flagged certificate first (it holds that key and
+		// signs with it) followed by the victim's genuine, publicly known chain
+		victim := certPool.Leaf[spec.Cert]
+		chain := append([][]byte{certPool.CA2.Raw}, victim.Certificate...)
+		spec.Cert = ""
+		env.Extra[rogue] = append(env.Extra[rogue], dtls.WithCertificates(tls.Certificate{Certificate: chain, PrivateKey: certPool.CA2Key()}))
+	case "scheme-confusion":
+		// the rogue knows only the victim's public ECDSA chain. It announces the Ed25519 scheme (its
+		// signer claims an Ed25519 public key, so the library picks that scheme) and answers with an
+		// ECDSA signature forged for the hash value zero.
+		base := certPool.Leaf[spec.Cert]
+		leaf, _ := x509.ParseCertificate(base.Certificate[0])
+		vpub, _ := leaf.PublicKey.(*ecdsa.PublicKey)
+		epub, _, _ := ed25519.GenerateKey(zeroReader{})
+		spec.Cert = ""
+		env.Extra[rogue] = append(env.Extra[rogue], dtls.WithCertificates(tls.Certificate{
+			Certificate: base.Certificate, Leaf: base.Leaf,
+			PrivateKey: &rogueSigner{pub: epub, mode: p.Dev, forged: forgeECDSAZero(vpub)},
+		}))
 	case "other-key", "sig-flip", "sig-other-digest", "empty-chain":
 		base := certPool.Leaf[spec.Cert]
 		inner, _ := base.PrivateKey.(crypto.Signer)
@@ -268,6 +348,54 @@ func c03Run(rc *RunCtx, params any) {
 		return
 	}
 	defer pair.Teardown()
+	if p.Dev == "ack-instead-of-auth" {
+		// Byzantine client: its whole final flight is withheld; instead an ACK sealed under its
+		// handshake keys acknowledges every record of the server's flight
+		acked := false
+		n.Rewrite = func(em *Emission) []byte {
+			if em.Ep != "c" || len(em.Data) == 0 || em.Data[0]&0xe0 != 0x20 {
+				return em.Data
+			}
+			if !acked {
+				acked = true
+				cst, _ := pair.Client.ConnectionState()
+				suite := uint16(cst.CipherSuiteID)
+				cw, cr := dtls.VerifTrafficSecrets(pair.Client)
+				dec := NewDecoder13(suite, cr)
+				var numbers [][2]uint64
+				for _, sem := range n.EmitsOf("s") {
+					recs, _ := ParseDatagram(sem.Data, 0)
+					for _, r := range recs {
+						if !r.Unified {
+							numbers = append(numbers, [2]uint64{uint64(r.Epoch), r.Seq})
+
+							continue
+						}
+						if e, _, _, sq, oerr := dec.Open(r); oerr == nil {
+							numbers = append(numbers, [2]uint64{uint64(e), sq})
+						}
+					}
+				}
+				if sec, ok := cw[2]; ok && len(numbers) > 0 {
+					body := []byte{byte(len(numbers) * 16 >> 8), byte(len(numbers) * 16)}
+					for _, nn := range numbers {
+						for k := 7; k >= 0; k-- {
+							body = append(body, byte(nn[0]>>(8*k)))
+						}
+						for k := 7; k >= 0; k-- {
+							body = append(body, byte(nn[1]>>(8*k)))
+						}
+					}
+					keys, _ := NewKeys13(suite, sec)
+					s.Fault("forged-handshake-ack")
+					n.Inject(time.Millisecond, pair.CAddr, pair.SAddr, keys.Seal13(2, 0, nil, CTACK, body, 0))
+				}
+			}
+			s.Fault("final-flight-withheld")
+
+			return nil
+		}
+	}
 	pair.StartHandshakes(2 * time.Minute)
 	s.Run(pair.BothDone, 3*time.Minute)
 	honest := pair.CHs
